@@ -198,7 +198,7 @@ class ServiceSystem:
       if kind == 'CheckTrialEarlyStoppingState' and (cls == 'OK' or scripted_failure):
         # the algorithm must be consulted exactly when no recent answer is stored for this trial
         s_ = a[1]
-        name = svc.resources.EarlyStoppingOperationResource('o', s_, a[2]).name
+        name = svc.resources.EarlyStoppingOperationResource(svc.owner_of(s_), svc.study_id(s_), a[2]).name
         rec = [dict(e) for e in dict(pre)['es'] if dict(e)['name'] == name]
         tr = [t for t in (trials_of(pre, s_) or []) if t['id'] == str(a[2])]
         st = study_of(pre, s_)
